@@ -363,6 +363,7 @@ fn handle(req: &Value) -> Value {
     let mut resp = match op {
         "run" => do_run(req),
         "call" => guarded(|| calls::do_call(req)),
+        "bits_bridge" => guarded(|| calls::bits_bridge(req)),
         "pc" => guarded(|| pcterm::do_pc(req)),
         "ping" => json!({"pong": true}),
         _ => json!({"error": format!("unknown op {}", op)}),
